@@ -288,6 +288,39 @@ Theorem C15_send_v2_spec :
 Proof. exact send_v2_spec. Qed.
 Print Assumptions C15_send_v2_spec.
 
+(** SendV2 / Send with the clock as a parameter: what is sent carries expiry =
+    now + the wallet's configured lifetime — the default CreateMessageBody takes
+    too (C14_create_message_body_expiry), so the entry points agree — and exactly
+    the requested messages *)
+Theorem C15_api_send_v2_expiry :
+  forall (code : version -> cell) (chash : cell -> res bytes) (SK : Type) (sign : SK -> bytes -> bits),
+  (forall c h, chash c = Ok h -> length h = 32%nat) ->
+  forall w sk life now a ms rnd wait send_err hist e r,
+  (forall sk m, length (sign sk m) = 512%nat) ->
+  modes_ok ms -> sendable (w_ver w) ->
+  (forall seqno init, next_params code w a = Ok (seqno, init) -> (seqno < 4294967296)%N) ->
+  api_send_v2 code chash SK sign w sk life now (Some a) ms rnd wait send_err hist = (Some e, r) ->
+  exists d, decode_msg chash (w_ver w) e = Ok d /\ extract_raw chash (w_ver w) e = Ok ms /\
+            d_valid d = unix32 (expiry now life).
+Proof. exact api_send_v2_expiry. Qed.
+Print Assumptions C15_api_send_v2_expiry.
+
+(** History independence: a Wallet object keeps nothing between calls, so after
+    ANY sequence of calls — StateInit(), the caller overwriting the value it got
+    back, GetAddress(), NextMessageParams / Send on any account state — every
+    answer is the answer of a fresh wallet with the same parameters.  (The
+    memoising design that hands its cache out by pointer is refuted in
+    Proofs/WalletHistory.v: memoising_design_refuted.) *)
+Theorem C15_history_independent :
+  forall (code : version -> cell) (chash : cell -> res bytes) w ops,
+  run_history code chash w ops = map (fresh_answer code chash w) ops.
+Proof. exact history_independent. Qed.
+
+Theorem C15_history_prefix_irrelevant :
+  forall (code : version -> cell) (chash : cell -> res bytes) w pre op,
+  nth_error (run_history code chash w (pre ++ [op])) (length pre) = Some (fresh_answer code chash w op).
+Proof. exact history_prefix_irrelevant. Qed.
+
 Theorem C15_send_v2_state_error :
   forall (code : version -> cell) (chash : cell -> res bytes) (SK : Type) (sign : SK -> bytes -> bits)
          w sk ms valid rnd wait send_err hist,
